@@ -334,7 +334,7 @@ func evalCase(r *hlib.Rng, s *hlib.Suite) {
 	desc := map[string]interface{}{"op": "eval", "dst": dst, "expr": top.desc, "derivation": hist, "props": []string{"C07", "C10", "C01"}}
 	if tempShapedRef {
 		desc["class"] = "eval-missing-column-named-like-a-temporary"
-		desc["props"] = []string{"C07"}
+		desc["props"] = []string{"C07", "C10"}
 	}
 	var expr qframe.Expression
 	id := s.NextID()
